@@ -79,6 +79,7 @@ class Effects:
         self.writes = []         # (kind 'ds'|'attr', key, provenance number)
         self.inplace = []        # descriptions of `.data = …` rewrites
         self.module_writes = []  # descriptions
+        self.drops = []          # (dimension expression, provenance): `grid._ds = grid._ds.drop_dims(<dim>, …)`
         self.wrap_always = False
         self.wrap_pop = False
 
@@ -87,6 +88,7 @@ class Effects:
         self.writes += [w for w in o.writes if w not in self.writes]
         self.inplace += [x for x in o.inplace if x not in self.inplace]
         self.module_writes += [x for x in o.module_writes if x not in self.module_writes]
+        self.drops += [x for x in o.drops if x not in self.drops]
 
 
 def _prov(where, target, value):
@@ -150,6 +152,15 @@ class Analyzer:
                 if value is not None:
                     self._expr(value, g, b, where, depth, eff, aliases, in_absent_if, top)
                 vsrc = ast.unparse(value) if value is not None else ""
+                # `grid._ds = grid._ds.drop_dims(<dim>, …)`: the dataset is rebound without every variable
+                # along <dim> — a modelled write ("drops all keys on <dim>"), not an unlisted one
+                if (isinstance(st, ast.Assign) and len(targets) == 1 and ast.unparse(targets[0]) == f"{g}._ds"
+                        and isinstance(value, ast.Call) and isinstance(value.func, ast.Attribute)
+                        and value.func.attr == "drop_dims" and ast.unparse(value.func.value) == f"{g}._ds"
+                        and value.args):
+                    dim = ast.unparse(value.args[0])
+                    eff.drops.append((dim, _prov(where, "_ds", vsrc)))
+                    continue
                 for tg in targets:
                     self._target(tg, vsrc, None, g, where, eff, aliases)
                 # alias of a module-level container:  x = ugrid.CONST
@@ -298,7 +309,15 @@ def extract():
 
     table = {g: dict(reads=[], writes=[], wrap_pop=None, wrap_always=None, getters=[]) for g in GROUPS}
     unknown, module_writes, inplace = [], [], []
+    drops = {}
     for prop, e in per_prop.items():
+        if e.drops and prop in GROUP_OF:
+            drops.setdefault(GID[GROUP_OF[prop]], [])
+            for d, _ in e.drops:
+                if d not in drops[GID[GROUP_OF[prop]]]:
+                    drops[GID[GROUP_OF[prop]]].append(d)
+        elif e.drops:
+            unknown.append(f"Grid.{prop}: drops dimension(s) {[d for d, _ in e.drops]}")
         module_writes += [m for m in e.module_writes if m not in module_writes]
         inplace += [m for m in e.inplace if m not in inplace]
         for kind, key, _ in e.writes:
@@ -328,7 +347,7 @@ def extract():
         for n in ast.walk(wrapfn[1]):
             if isinstance(n, ast.List) and all(isinstance(x, ast.Constant) for x in n.elts):
                 wrap_targets = [x.value for x in n.elts]
-    return dict(table=table, unknown=unknown, module_writes=module_writes, inplace=inplace,
+    return dict(table=table, unknown=unknown, module_writes=module_writes, inplace=inplace, drops=drops,
                 wrap_targets=wrap_targets, missing=[p for p in GROUP_OF if p not in per_prop])
 
 
@@ -362,6 +381,9 @@ def render(notes=None):
     lines.append("/-- the variables `_set_desired_longitude_range` rewrites -/")
     lines.append("def wrapTargets : List String := " + translate._strlist(x["wrap_targets"]))
     lines.append("")
+    lines.append("/-- group → dimensions whose variables its getters may DROP (`grid._ds = grid._ds.drop_dims(<dim>)`) -/")
+    lines.append("def dropDims : List (Nat × List String) := [" +
+                 ", ".join(f"({k}, {translate._strlist(v)})" for k, v in sorted(x["drops"].items())) + "]")
     lines.append("/-- writes of a `Grid` property to a `_ds` key / private attribute outside the modelled variables -/")
     lines.append("def unknownWrites : List String := " + translate._strlist(x["unknown"]))
     lines.append("/-- writes of a `Grid` property (or anything it calls with the grid) to a module-level container -/")
